@@ -105,6 +105,8 @@ struct Fiber {
     void *asan_fake;
     int saved_errno;
     Team *w_team; int w_tid;
+    int tls_key;            /* which OS-thread-local storage this virtual thread sees: 0 main thread, i = pool thread i, -1 its own */
+    char *tls_priv;
     Fiber *pool_next;
     int dying;
 };
@@ -144,7 +146,16 @@ const char *g_probe_name[PR__N] = {
     "sb_stores_buffered","sb_stale_reads","unusual_branches_taken","c10_nodes_checked_in_output"
 };
 
+/* Stack of a virtual thread.  Without sanitizer instrumentation it is what a real thread gets by default (8 MB, the
+   usual RLIMIT_STACK that libgomp's threads inherit), with a guard page below it, so that a frame that grows with the
+   input (a VLA, alloca, deep recursion) overflows here where it would overflow in production.  ASan frames are several
+   times larger than native ones, so that build keeps a generous stack and finds such bugs through its own reports. */
+#ifdef SIM_ASAN_BUILD
 #define STACK_SIZE ((size_t)64 << 20)
+#else
+#define STACK_SIZE ((size_t)8 << 20)
+#endif
+#define STACK_GUARD ((size_t)64 << 10)
 
 /* ------------------------------------------------------------------ decisions */
 
@@ -199,8 +210,10 @@ static Fiber *fiber_new(void)
     else {
         f = sim_xcalloc(1, sizeof *f);
         f->ssize = STACK_SIZE;
-        f->stack = mmap(NULL, f->ssize, PROT_READ | PROT_WRITE, MAP_PRIVATE | MAP_ANONYMOUS | MAP_NORESERVE | MAP_STACK, -1, 0);
-        if (f->stack == MAP_FAILED) sim_fatal("HARNESS", "mmap fiber stack failed");
+        char *base = mmap(NULL, f->ssize + STACK_GUARD, PROT_READ | PROT_WRITE, MAP_PRIVATE | MAP_ANONYMOUS | MAP_NORESERVE | MAP_STACK, -1, 0);
+        if (base == MAP_FAILED) sim_fatal("HARNESS", "mmap fiber stack failed");
+        mprotect(base, STACK_GUARD, PROT_NONE);
+        f->stack = base + STACK_GUARD;
         f->vg_id = VALGRIND_STACK_REGISTER(f->stack, (char *)f->stack + f->ssize);
     }
     if (g_nfib >= MAX_FIBERS) sim_fatal("HARNESS", "too many fibers");
@@ -223,12 +236,59 @@ static void fiber_unlist(Fiber *f)
 
 static void fiber_release(Fiber *f) { f->pool_next = g_pool; g_pool = f; }
 
+/* ---- thread-local storage (`__thread`, `#pragma omp threadprivate`) per virtual thread.
+   All fibers run on one OS thread and would share one copy of kalign's thread-local variables; real worker threads each
+   have their own, and libgomp's pooled workers KEEP theirs between parallel regions.  The executable's PT_TLS block is
+   therefore swapped at every fiber switch: the main thread (key 0) and top-level worker i (key i, persistent for the
+   plan like a pool thread) and nested workers (own copy, initialised from the template).  Not done in the ASan build,
+   whose runtime keeps its own per-thread state in the same block. */
+#ifndef SIM_ASAN
+#include <link.h>
+#define TLS_KEYS 1024
+static struct { int probed, ready; size_t memsz, filesz; const char *tmpl; char *live; } g_tls;
+static char *g_tls_area[TLS_KEYS];
+static int tls_phdr_cb(struct dl_phdr_info *info, size_t size, void *data)
+{
+    (void)size; (void)data;
+    if (info->dlpi_name && info->dlpi_name[0]) return 0;          /* the main executable has an empty name */
+    for (int i = 0; i < info->dlpi_phnum; i++) if (info->dlpi_phdr[i].p_type == PT_TLS && info->dlpi_tls_data) {
+        g_tls.memsz = info->dlpi_phdr[i].p_memsz; g_tls.filesz = info->dlpi_phdr[i].p_filesz;
+        g_tls.tmpl = (const char *)(info->dlpi_addr + info->dlpi_phdr[i].p_vaddr);
+        g_tls.live = info->dlpi_tls_data;
+        g_tls.ready = g_tls.memsz > 0;
+    }
+    return 1;
+}
+static void tls_template(char *dst) { memcpy(dst, g_tls.tmpl, g_tls.filesz); memset(dst + g_tls.filesz, 0, g_tls.memsz - g_tls.filesz); }
+static char **tls_slot(Fiber *f) { return (f->tls_key >= 0 && f->tls_key < TLS_KEYS) ? &g_tls_area[f->tls_key] : &f->tls_priv; }
+static void tls_switch(Fiber *prev, Fiber *next)
+{
+    if (!g_tls.ready || (prev->tls_key >= 0 && prev->tls_key == next->tls_key)) return;
+    char **ps = tls_slot(prev), **ns = tls_slot(next);
+    if (!*ps) *ps = sim_xmalloc(g_tls.memsz);
+    memcpy(*ps, g_tls.live, g_tls.memsz);
+    if (!*ns) { *ns = sim_xmalloc(g_tls.memsz); tls_template(*ns); }
+    memcpy(g_tls.live, *ns, g_tls.memsz);
+}
+static void tls_reset(void)
+{
+    if (!g_tls.probed) { g_tls.probed = 1; dl_iterate_phdr(tls_phdr_cb, NULL); }
+    if (!g_tls.ready) return;
+    for (int i = 0; i < TLS_KEYS; i++) { sim_xfree(g_tls_area[i]); g_tls_area[i] = NULL; }
+    tls_template(g_tls.live);          /* every plan starts like a fresh process */
+}
+#else
+#define tls_switch(a, b) ((void)0)
+#define tls_reset() ((void)0)
+#endif
+
 static void switch_to(Fiber *next)
 {
     Fiber *prev = g_cur;
     if (next == prev) return;
     prev->saved_errno = errno;
     g_probe[PR_SWITCHES]++;
+    tls_switch(prev, next);
     g_cur = next;
     g_cur_fiber_id = next->id;
 #ifdef SIM_ASAN
@@ -701,6 +761,8 @@ void GOMP_parallel(void (*fn)(void *), void *data, unsigned num_threads, unsigne
     for (unsigned i = 1; i < n; i++) {
         Fiber *f = fiber_new();
         f->w_team = tm; f->w_tid = (int)i;
+        f->tls_key = (level == 1) ? (int)i : -1;      /* top-level worker i is pool thread i; nested workers get their own storage */
+        if (f->tls_priv) { sim_xfree(f->tls_priv); f->tls_priv = NULL; }
         tm->workers[i] = f;
     }
     Ctx cx; memset(&cx, 0, sizeof cx);
@@ -1050,6 +1112,8 @@ void simomp_reset(void)
     }
     g_root.ctx = &g_root_ctx;
     g_root.stall_until = 0; g_root.state = F_RUN; g_root.saved_errno = 0;   /* nothing survives from the previous plan */
+    g_root.tls_key = 0;
+    tls_reset();
     g_next_fiber_id = 1; g_next_task_id = 1;
     g_srng.s = W.sched_seed ^ 0xA5A5A5A55A5A5A5AULL;
     g_steps = 0; g_accesses = 0; g_trace_n = 0; g_dec_pos = 0; g_preempt_pos = 0; g_preempt_trace_n = 0;
